@@ -123,6 +123,9 @@ bool check_implied(vh::Case& c, Cx& cx, Pcoh& pcoh, const std::vector<Got>& got,
   typedef typename Cx::Filtration_value FV;
   vh::Rng& r = c.rng;
   const int D = E.dim + 2;
+  // the derived queries are checked twice: right after the computation, and again after output_diagram(), which sorts the
+  // stored pairs in place (a query that depends on the order of the stored pairs would only be wrong the second time)
+  auto derived_queries = [&](const std::string& sg) -> bool {
   // Betti numbers = number of never-ending pairs per dimension
   std::vector<int> imp(D + 1, 0);
   for (auto& g : got) if (g.ddim < 0 && g.dim >= 0 && g.dim <= D) imp[g.dim]++;
@@ -130,12 +133,12 @@ bool check_implied(vh::Case& c, Cx& cx, Pcoh& pcoh, const std::vector<Got>& got,
   c.count("cmp.betti_numbers");
   for (int d = 0; d <= std::max(D, (int)bn.size() - 1); ++d) {
     int g = d < (int)bn.size() ? bn[d] : 0, w = d <= D ? imp[d] : 0;
-    if (g != w) { c.violation("betti_numbers.implied_by_pairs", sig, "betti_numbers()[" + vh::str(d) + "]=" + vh::str(g) + " but the pairs imply " + vh::str(w)); return false; }
+    if (g != w) { c.violation("betti_numbers.implied_by_pairs", sg, "betti_numbers()[" + vh::str(d) + "]=" + vh::str(g) + " but the pairs imply " + vh::str(w)); return false; }
   }
   for (int d = -1; d <= D; ++d) {
     int g = pcoh.betti_number(d), w = (d >= 0 ? imp[d] : 0);
     c.count("cmp.betti_number");
-    if (g != w) { c.violation("betti_number.implied_by_pairs", sig, "betti_number(" + vh::str(d) + ")=" + vh::str(g) + " but the pairs imply " + vh::str(w)); return false; }
+    if (g != w) { c.violation("betti_number.implied_by_pairs", sg, "betti_number(" + vh::str(d) + ")=" + vh::str(g) + " but the pairs imply " + vh::str(w)); return false; }
   }
   // persistent Betti numbers: birth <= from and (never dies or death > to)
   for (int rep = 0; rep < 3; ++rep) {
@@ -154,12 +157,12 @@ bool check_implied(vh::Case& c, Cx& cx, Pcoh& pcoh, const std::vector<Got>& got,
     c.count("cmp.persistent_betti_numbers");
     for (int d = 0; d <= std::max(D, (int)pb.size() - 1); ++d) {
       int g = d < (int)pb.size() ? pb[d] : 0, w = d <= D ? pimp[d] : 0;
-      if (g != w) { c.violation("persistent_betti_numbers.implied_by_pairs", sig, "persistent_betti_numbers(" + vh::str(f0) + "," + vh::str(t0) + ")[" + vh::str(d) + "]=" + vh::str(g) + " but the pairs imply " + vh::str(w)); return false; }
+      if (g != w) { c.violation("persistent_betti_numbers.implied_by_pairs", sg, "persistent_betti_numbers(" + vh::str(f0) + "," + vh::str(t0) + ")[" + vh::str(d) + "]=" + vh::str(g) + " but the pairs imply " + vh::str(w)); return false; }
     }
     for (int d = -1; d <= D; ++d) {
       int g = pcoh.persistent_betti_number(d, from, to), w = d >= 0 ? pimp[d] : 0;
       c.count("cmp.persistent_betti_number");
-      if (g != w) { c.violation("persistent_betti_number.implied_by_pairs", sig, "persistent_betti_number(" + vh::str(d) + "," + vh::str(f0) + "," + vh::str(t0) + ")=" + vh::str(g) + " but the pairs imply " + vh::str(w)); return false; }
+      if (g != w) { c.violation("persistent_betti_number.implied_by_pairs", sg, "persistent_betti_number(" + vh::str(d) + "," + vh::str(f0) + "," + vh::str(t0) + ")=" + vh::str(g) + " but the pairs imply " + vh::str(w)); return false; }
     }
   }
   // per-dimension interval lists
@@ -170,8 +173,11 @@ bool check_implied(vh::Case& c, Cx& cx, Pcoh& pcoh, const std::vector<Got>& got,
     for (auto& x : got) if (x.dim == d) w.emplace_back(x.b, x.d);
     std::sort(g.begin(), g.end()); std::sort(w.begin(), w.end());
     c.count("cmp.intervals_in_dimension");
-    if (g != w) { c.violation("intervals_in_dimension.implied_by_pairs", sig, "intervals_in_dimension(" + vh::str(d) + ") has " + vh::str(g.size()) + " intervals, the pairs imply " + vh::str(w.size()) + " (or values differ)"); return false; }
+    if (g != w) { c.violation("intervals_in_dimension.implied_by_pairs", sg, "intervals_in_dimension(" + vh::str(d) + ") has " + vh::str(g.size()) + " intervals, the pairs imply " + vh::str(w.size()) + " (or values differ)"); return false; }
   }
+    return true;
+  };
+  if (!derived_queries(sig)) return false;
   // printed diagram: "product  dim  birth  death"
   {
     std::ostringstream os;
@@ -194,6 +200,8 @@ bool check_implied(vh::Case& c, Cx& cx, Pcoh& pcoh, const std::vector<Got>& got,
     std::sort(after.begin(), after.end());
     if (after != as_intervals(got)) { c.violation("output_diagram.pairs_preserved", sig, "get_persistent_pairs changed as a multiset after output_diagram"); return false; }
   }
+  c.count("cmp.derived_queries_after_output_diagram");
+  if (!derived_queries(sig + ",after_output_diagram")) return false;
   return true;
 }
 
